@@ -247,6 +247,8 @@ static std::vector<Instance> instances(const std::string &tier) {
 	add("H6-both-map-unaligned", B, mkscript({{A_(0, 1024), F_(0)}, {A_(0, 1024), F_(0)}}), false, 256);
 	// H7: slab full -> two frees make it partial again while two allocations follow
 	add("H7-full-slab-refill", B, mkscript({{F_(100), A_(0, 1024)}, {F_(101), A_(1, 600)}}, {A_(0, 1024), A_(1, 1024), A_(2, 1024)}));
+	// H10: four threads on one class (the property speaks of 2-8 threads); bound 1 keeps it small
+	add("H10-four-threads", th ? 2 : 1, mkscript({{A_(0, 1024), F_(0)}, {A_(0, 1024), F_(0)}, {A_(0, 1024), D_(0)}, {A_(0, 600), F_(0)}}));
 	if(th) {
 		add("H1-both-map-all", 1000, mkscript({{A_(0, 1024), F_(0)}, {A_(0, 1024), F_(0)}}));
 		add("H8-three-allocators", 2, mkscript({{A_(0, 1024), F_(0)}, {A_(0, 1024), F_(0)}, {A_(0, 1024), F_(0)}}));
